@@ -13,7 +13,7 @@ RULE = ("Flow A: as C01, but the verdict is exact equality of the emitted strand
         "equal the big-endian rendering of its documented value. Flow B: seeded orders 2..5, messages to 4096 bits, TLC recomputes "
         "the strand with limb arithmetic. Distinct non-trivial = distinct judged cases with a non-empty message / strand.")
 
-MINE = {"strand", "check", "decode-of-documented-strand", "decoded-value", "wrong-length"}
+MINE = {"strand", "decode-of-documented-strand", "decoded-value", "wrong-length"}
 
 
 def run(ctx):
